@@ -19,8 +19,11 @@ import tempfile
 def make_group(g, max_nodes, extra=None):
     from jade.models import SubmitterParams, HpcConfig, SubmissionGroup
     wall = g.get("wall_min", 60)
-    hpcc = HpcConfig(hpc_type="slurm", job_prefix=g["name"],
-                     hpc={"account": "acct", "walltime": "%d:%02d:00" % (wall // 60, wall % 60)})
+    if g.get("local"):
+        hpcc = HpcConfig(hpc_type="local", job_prefix=g["name"], hpc={})
+    else:
+        hpcc = HpcConfig(hpc_type="slurm", job_prefix=g["name"],
+                         hpc={"account": "acct", "walltime": "%d:%02d:00" % (wall // 60, wall % 60)})
     kw = dict(hpc_config=hpcc, per_node_batch_size=g.get("size", 500), max_nodes=max_nodes,
               time_based_batching=bool(g.get("time")), try_add_blocked_jobs=bool(g.get("try", True)),
               dry_run=bool(g.get("dry")), distributed_submitter=bool(g.get("distributed", True)),
